@@ -45,7 +45,8 @@ def main():
     n = int(sys.argv[2]) if len(sys.argv) > 2 else 4
     rc, head = sh("git -C %s rev-parse HEAD" % ROOT)
     for k in range(1, n + 1):
-        rc, o = sh("git -C /tmp/lane_%d checkout -q --detach %s" % (k, head.strip()))
+        sh("git -C /tmp/lane_%d clean -fdq -- seeded" % k)      # results copied in by earlier runs (untracked there, tracked in /verif by now)
+        rc, o = sh("git -C /tmp/lane_%d checkout -q -f --detach %s" % (k, head.strip()))
         assert rc == 0, o
     lock, out = threading.Lock(), []
     ts = [threading.Thread(target=lane_worker, args=(k, jobs, lock, out)) for k in range(1, n + 1)]
